@@ -4,6 +4,7 @@ package zzharness
 // worker, strict replay, minimiser, worker summary. See /verif/DESIGN.md §2.
 
 import (
+	"sync/atomic"
 	"encoding/json"
 	"fmt"
 	"log/slog"
@@ -177,7 +178,32 @@ func racePol(pol zzsim.Policy) zzsim.Policy {
 
 func planSeedRng(seed uint64) *rand.Rand { return rand.New(rand.NewPCG(seed, 1)) }
 
+// Watchdog: a run takes milliseconds to a few seconds. One that has not ended after a minute of real
+// time has a task that neither blocks nor reaches a yield point - code under test that loops for
+// ever - and nothing inside the process can end it. The process says so and exits; for properties
+// that forbid unanswered requests the check treats that like a process abort (fresh-process replay,
+// shrinking from outside).
+var runStartedNs atomic.Int64
+
+func startWatchdog() {
+	go func() {
+		for {
+			time.Sleep(time.Second)
+			if st := runStartedNs.Load(); st != 0 && time.Now().UnixNano()-st > int64(60*time.Second) {
+				fmt.Fprintln(os.Stderr, "fatal error: zzharness watchdog: the run has not ended after 60 s of real time (a task neither blocks nor yields)")
+				os.Exit(3)
+			}
+		}
+	}()
+}
+
 func runScenario(t *testing.T, sc *Scenario, plan any, ctl Ctl) *Result {
+	runStartedNs.Store(time.Now().UnixNano())
+	defer runStartedNs.Store(0)
+	return runScenarioInner(t, sc, plan, ctl)
+}
+
+func runScenarioInner(t *testing.T, sc *Scenario, plan any, ctl Ctl) *Result {
 	cwd, _ := os.Getwd()
 	defer os.Chdir(cwd)
 	if raceOverlap > 1 {
@@ -365,6 +391,7 @@ func TestSim(t *testing.T) {
 	// way; with the default limit of 1 GB per goroutine it takes minutes to get there, with 32 MB
 	// (far more than any run needs) a second.
 	debug.SetMaxStack(32 << 20)
+	startWatchdog()
 	if os.Getenv("VERIF_DEBUG") != "" {
 		fmt.Fprintf(os.Stderr, "zzsim: goroutine id offset %d\n", zzsim.GoidOffset())
 	}
@@ -570,4 +597,16 @@ func traceMode(t *testing.T) {
 		fmt.Printf("TRACE %s %d end=%q steps=%d sim=%d trace=%x dec=%x viol=%x probes=%x infra=%q\n", sc.Name, seed, res.End, res.Steps, res.SimNs, res.Trace,
 			hashBytes([]byte(strings.Join(res.Decisions, "|"))), hashBytes(vb), hashBytes(pb), res.Infra)
 	}
+}
+
+// blockedHandlers: notification tasks (started by the event package) that are blocked for good
+// inside the cleanup task's change handler, i.e. on its channel.
+func blockedHandlers(s *zzsim.Sched) []string {
+	var out []string
+	for _, b := range s.BlockedOutside("cache/cache_janitor.go") {
+		if strings.HasPrefix(b, "go:utils/event/") {
+			out = append(out, b)
+		}
+	}
+	return out
 }
